@@ -204,6 +204,8 @@ fn digest(m: &Machine) -> u64 {
         Programsize::Size(n) => { v.push(1); v.push(n) }
         _ => v.push(0),
     }
+    // derived Debug of the whole machine: every field, also ones added later
+    v.extend_from_slice(format!("{:?}", m).as_bytes());
     mc::fnv(&v)
 }
 
@@ -547,6 +549,31 @@ fn resume_check(halted: &Machine, origin: &Prog, first_byte: bool) -> Option<(St
     }
 }
 
+/// Supervision is not a matter of the first life only: after a reset the same RAM image runs again
+/// (registers zero, PC 0) and every edge is monitored as before.
+fn rerun_after_reset(halted: &Machine, origin: &Prog) -> Vec<(String, String, String)> {
+    let mut bad = vec![];
+    for (name, master) in [("cpu_reset", false), ("master_reset", true)] {
+        let mut m = halted.clone();
+        if master {
+            m.master_reset();
+        } else {
+            m.cpu_reset();
+        }
+        let mut st = MonStats::default();
+        for _ in 0..260 {
+            if let Some((k, w)) = monitored_edge(&mut m, &mut st) {
+                bad.push((format!("after-reset/{}", k), format!("second life after {}: {}", name, w), format!("rerun {} {}", name, origin.line())));
+                break;
+            }
+            if m.state() != State::Running {
+                break;
+            }
+        }
+    }
+    bad
+}
+
 /// Programs that go through the real assembler and `Machine::load` (limits installed by load).
 fn loaded_programs(out: &mut Out) {
     let srcs = [
@@ -695,6 +722,7 @@ pub fn run() {
         if let Some(v) = resume_check(m, p, fb) {
             bad.push(v);
         }
+        bad.extend(rerun_after_reset(m, p));
         mc::watch::idle();
         (s, t, bad)
     });
